@@ -21,10 +21,14 @@ func TestSweep(t *testing.T) {
 		for _, rw := range [][2]int{{2, 2}, {8, 8}, {16, 0}, {0, 16}, {3, 5}} {
 			for _, procs := range []int{1, 2, 16} {
 				R, W := rw[0], rw[1]
-				c := &Case{T: tn, C: 1 + ti%3, F: 40, RO: 8, Procs: procs, Repeat: rep}
+				F, span := 40, 32
+				if procs == 16 { // a long buffer: writer windows of hundreds of samples with sizes that are not multiples of 8
+					F, span = 8+101*kitMax(W, 1), 101*kitMax(W, 1)
+				}
+				c := &Case{T: tn, C: 1 + ti%3, F: F, RO: 8, Procs: procs, Repeat: rep}
 				c.Bounds = []int{8}
 				for w := 0; w < W; w++ {
-					c.Bounds = append(c.Bounds, 8+(w+1)*32/W)
+					c.Bounds = append(c.Bounds, 8+(w+1)*span/W)
 				}
 				for r := 0; r < R; r++ {
 					var s []int
@@ -47,4 +51,11 @@ func TestSweep(t *testing.T) {
 		}
 	}
 	rec.Exhaustive("grid: 6 types x (readers,writers) in {(2,2),(8,8),(16,0),(0,16),(3,5)} x GOMAXPROCS in {1,2,16}, every read-only and writing entry point in every script; schedules are sampled, not enumerated", false)
+}
+
+func kitMax(a, b int) int {
+	if a > b {
+		return a
+	}
+	return b
 }
